@@ -3,6 +3,7 @@ package c06
 import (
 	"encoding/json"
 	"fmt"
+	"hash/fnv"
 	"strings"
 
 	"verifharness/internal/core"
@@ -113,6 +114,28 @@ func randDefers(r *core.RNG, ids *idgen, depth int) []deferSpec {
 		d := deferSpec{ID: ids.next(), Err: r.Chance(4)}
 		if depth < 2 && r.Chance(35) {
 			d.Nested = randDefers(r, ids, depth+1)
+		}
+		out = append(out, d)
+	}
+	return out
+}
+
+// sideRNG: a generator seeded by the content of v; draws from it do not advance the main stream.
+func sideRNG(v any) *core.RNG {
+	b, _ := json.Marshal(v)
+	h := fnv.New64a()
+	_, _ = h.Write(b)
+	return core.NewRNG(h.Sum64())
+}
+
+// callbacks registered inside New: they never fail (a failing one would be a callback error like any other: family of C02)
+func randNewDefers(r *core.RNG, ids *idgen, depth int) []deferSpec {
+	var out []deferSpec
+	n := 1 + r.Intn(2)
+	for i := 0; i < n; i++ {
+		d := deferSpec{ID: ids.next()}
+		if depth < 2 && r.Chance(30) {
+			d.Nested = randNewDefers(r, ids, depth+1)
 		}
 		out = append(out, d)
 	}
@@ -280,6 +303,18 @@ func randModule(r *core.RNG, malformed bool) input {
 	}
 	in.All = r.Chance(35)
 	in.Force = r.Chance(30)
+	// generators that register callbacks inside New(c) (collect-then-emit: the per-package summary) and touch c's writer there
+	// (drawn from a side stream seeded by the module drawn so far, so that the modules of a seed stay what they were)
+	ndids := &idgen{n: 9000}
+	side := sideRNG(in)
+	for gi := range in.Gens {
+		if side.Chance(35) {
+			in.Gens[gi].NewDefers = randNewDefers(side, ndids, 0)
+		}
+		if side.Chance(20) {
+			in.Gens[gi].NewRender = true
+		}
+	}
 	// generators that ask Context.Doc about type parameters, field types and local types before they record
 	in.Probe = r.Chance(50)
 	for pi := range in.Pkgs {
@@ -398,6 +433,65 @@ func fixedCases() []input {
 	out = append(out, tp2)
 	out = append(out, probeCases()...)
 	out = append(out, lineDirectiveCases()...)
+	out = append(out, newDeferCases()...)
+	return out
+}
+
+// Callbacks registered with Context.Defer inside GeneratorNewer.New(c): the generator is created once per processed package
+// and hooks its per-package footer there.  They run exactly once per (package, generator), after the last GenerateType,
+// before the file is written — with and without enabled types, next to callbacks registered from GenerateType, for several
+// generators and packages, nested, in All and entrypoint-only runs.
+func newDeferCases() []input {
+	var out []input
+	nd := func(ids ...int) []deferSpec {
+		var ds []deferSpec
+		for _, id := range ids {
+			ds = append(ds, deferSpec{ID: id})
+		}
+		return ds
+	}
+	// the registry generator: two enabled types, one footer callback
+	a := one("deep", false, on("deep"), nil, []typeDecl{st(1, "A", nil), st(2, "B", nil)}, nil)
+	a.Gens[0].NewDefers = nd(9001)
+	out = append(out, a)
+	// next to callbacks registered from GenerateType (also nested ones), and New touches the writer
+	b := one("deep", true, on("deep"), nil, []typeDecl{
+		{ID: 1, Name: "A", Kind: "struct", Defers: []deferSpec{{ID: 501, Nested: []deferSpec{{ID: 502}}}}},
+		{ID: 2, Name: "B", Kind: "alias", Defers: []deferSpec{{ID: 503}}}, {ID: 3, Name: "C", Kind: "struct", Action: "skip"}}, nil)
+	b.Gens[0].NewDefers = []deferSpec{{ID: 9001, Nested: []deferSpec{{ID: 9002, Nested: nd(9003)}}}, {ID: 9004}}
+	b.Gens[0].NewRender = true
+	out = append(out, b)
+	// nothing is enabled / nothing renders: the callbacks run all the same, no file appears
+	c := one("deep", false, nil, nil, []typeDecl{st(1, "A", nil), st(2, "B", off("deep"))}, nil)
+	c.Gens[0].NewDefers = nd(9001, 9002)
+	out = append(out, c)
+	d := one("deep", false, on("deep"), nil, []typeDecl{{ID: 1, Name: "A", Kind: "struct", Action: "quiet"}, {ID: 2, Name: "B", Kind: "struct", Action: "ignore"}}, nil)
+	d.Gens[0].NewDefers = nd(9001)
+	out = append(out, d)
+	// the file exists only through a callback registered from GenerateType; the one from New runs before it
+	e := one("deep", false, on("deep"), nil, []typeDecl{{ID: 1, Name: "A", Kind: "struct", Action: "quiet", Defers: []deferSpec{{ID: 501}}}}, nil)
+	e.Gens[0].NewDefers = nd(9001)
+	out = append(out, e)
+	// three generators (prefix names), two of them register inside New, one only touches the writer
+	f := one("deep", true, nil, nil, []typeDecl{st(1, "A", on("deepcopy")), st(2, "B", on("deep")), st(3, "C", []tagLine{tl("gengo:deep"), tl("gengo:de")})}, nil)
+	f.Gens = []genSpec{{Name: "deep", Alias: true, NewDefers: nd(9001)}, {Name: "deepcopy", NewDefers: []deferSpec{{ID: 9011, Nested: nd(9012)}}}, {Name: "de", NewRender: true}}
+	out = append(out, f)
+	// two packages: All, entrypoint only (the imported package is loaded but not processed: New is not called for it),
+	// and a generator error in the first package (the callbacks of that session must not run)
+	for _, all := range []bool{true, false} {
+		g := input{Kind: "module", Runs: 3, Gens: []genSpec{{Name: "deep", Alias: true, NewDefers: []deferSpec{{ID: 9001, Nested: nd(9002)}}}, {Name: "x", NewDefers: nd(9021)}},
+			Entry: []int{0}, Globals: tagsOf([]tagLine{tl("gengo:deep"), tl("gengo:x")}), All: all,
+			Pkgs: []pkgSpec{{Dir: "p0", ImportNext: true, Files: []fileSpec{{Name: "a.go", Types: []typeDecl{st(1, "A", nil), {ID: 2, Name: "Ext", Kind: "aliasext"}}}}},
+				{Dir: "p1", Files: []fileSpec{{Name: "a.go", Types: []typeDecl{st(3, "X", nil), st(4, "y", off("deep"))}}}}}}
+		out = append(out, g)
+	}
+	h := one("deep", false, on("deep"), nil, []typeDecl{st(1, "A", nil), {ID: 2, Name: "B", Kind: "struct", Action: "err"}, st(3, "C", nil)}, nil)
+	h.Gens[0].NewDefers = nd(9001)
+	out = append(out, h)
+	// a callback registered from GenerateType fails: the queue stops there; the callback from New stood before it
+	i := one("deep", false, on("deep"), nil, []typeDecl{{ID: 1, Name: "A", Kind: "struct", Defers: []deferSpec{{ID: 501, Err: true}, {ID: 502}}}}, nil)
+	i.Gens[0].NewDefers = nd(9001)
+	out = append(out, i)
 	return out
 }
 
@@ -693,6 +787,25 @@ func (prop) Shrink(raw json.RawMessage) []json.RawMessage {
 		c := clone(in)
 		c.Force = false
 		add(c)
+	}
+	for gi, g := range in.Gens {
+		if len(g.NewDefers) > 0 {
+			c := clone(in)
+			c.Gens[gi].NewDefers = c.Gens[gi].NewDefers[:len(g.NewDefers)-1]
+			add(c)
+			for di, d := range g.NewDefers {
+				if len(d.Nested) > 0 {
+					c := clone(in)
+					c.Gens[gi].NewDefers[di].Nested = nil
+					add(c)
+				}
+			}
+		}
+		if g.NewRender {
+			c := clone(in)
+			c.Gens[gi].NewRender = false
+			add(c)
+		}
 	}
 	if in.Probe {
 		c := clone(in)
